@@ -378,6 +378,8 @@ def replay(w):
     S = emd.sift
     kind = w.get('kind')
     x = np.array(w['x'], float)
+    if w.get('dtype'):
+        x = x.astype(w['dtype'])        # integer-valued samples stored as integers (the alphabets below are integer-valued)
     n = len(x)
     with warnings.catch_warnings():
         warnings.simplefilter('ignore')
@@ -460,14 +462,23 @@ def replay(w):
 def refute(tier, seed, emit):
     maxlen = 7 if tier == 'quick' else 9
     pads = (0, 1, 2, 3) if tier == 'quick' else (0, 1, 2, 3, 4, 5)
-    emit.scope('every sequence of length 3..%d over the 3-level alphabet {0,1,2} (ties / plateaus / very short signals): strict extrema; x pad widths %s x parabolic on/off x modes: padded extrema; x {splrep, pchip, mono_pchip} x {upper, lower, combined}: envelope vs interpolant rebuilt from the returned extrema at 0..N-1; non-trivial = at least two extrema of some kind' % (maxlen, list(pads)), exhaustive=True)
-    for t in seqs([0.0, 1.0, 2.0], maxlen, 3):
+    emit.scope('every sequence of length 3..%d over the 3-level alphabet {-2,0,1} (ties / plateaus / very short signals; also stored as integers up to length 6): strict extrema; x pad widths %s x parabolic on/off x modes: padded extrema; x {splrep, pchip, mono_pchip} x {upper, lower, combined}: envelope vs interpolant rebuilt from the returned extrema at 0..N-1; non-trivial = at least two extrema of some kind' % (maxlen, list(pads)), exhaustive=True)
+    # (asymmetric alphabet with a negative level: |x| differs from x, peaks of |x| are asymmetric - the combined envelope is a case of its own)
+    for t in seqs([-2.0, 0.0, 1.0], maxlen, 3):
         x = list(t)
         nontriv = len(strict_max(t)) >= 2 or len(strict_max([-v for v in t])) >= 2
         emit.case(('ext', t), nontrivial=nontriv, contract='_find_extrema')
         ok, msg = replay({'kind': 'extrema', 'x': x})
         if ok:
             emit.violation('extrema-are-exactly-the-strict-local-extrema', {'kind': 'extrema', 'x': x}, msg)
+        if len(t) <= 6 and nontriv:
+            # the same samples stored as integers (raw counts)
+            for wd in ({'kind': 'extrema', 'x': x, 'dtype': 'int64'}, {'kind': 'padded', 'x': x, 'mode': 'troughs', 'pad': 2, 'parabolic': True, 'dtype': 'int64'},
+                       {'kind': 'envelope', 'x': x, 'mode': 'combined', 'pad': 2, 'parabolic': False, 'method': 'splrep', 'dtype': 'int32'}):
+                emit.case(('int', t, wd['kind']), nontrivial=True, contract='interp_envelope')
+                ok, msg = replay(wd)
+                if ok:
+                    emit.violation({'extrema': 'extrema-are-exactly-the-strict-local-extrema', 'padded': 'padding-keeps-interior-orders-and-covers', 'envelope': 'envelope-is-interpolant-at-integer-sample-times'}[wd['kind']] + ':integer-input', wd, msg)
         if not nontriv and len(t) > 5:
             continue
         for pad in pads:
